@@ -724,6 +724,11 @@ func gatedHistory(c *core.Ctx, t *core.Trace, cas int) error {
 			h.sendDirect(mkBatch(h, rng, now))
 		case k == 17 && !stopped:
 			m := pickConfig(rng, base)
+			if _, ok := m["max_wait_time"]; !ok {
+				// an absent key means the built-in 5 s, and every expiry of the worker's timed wait would really take
+				// that long: in queue mode the key is always named (absent keys: direct mode and cex/4)
+				m["max_wait_time"] = 1 + rng.Intn(12)
+			}
 			h.applyConfig(m)
 			if v, ok := m["logsink_queue_size"]; ok {
 				cur.qCap = int64(v)
